@@ -33,6 +33,9 @@ func (p *partDisk) Writer() io.WriteSeeker {
 
 // Reader implements Part.
 func (p *partDisk) Reader() (io.ReadCloser, error) {
+	p.s.mutex.RLock()
+	defer p.s.mutex.RUnlock()
+
 	// read from RAM if possible
 	if p.buffer != nil {
 		return io.NopCloser(bytes.NewReader(p.buffer.Bytes())), nil
